@@ -41,6 +41,8 @@ type c10Case struct {
 	Variant  string              `json:"variant,omitempty"`
 	MapOrder []simrt.MapDecision `json:"maporder,omitempty"`
 	History  int                 `json:"history,omitempty"` // bundles compiled before it in the same process
+	Unit     []msgSpec           `json:"unit,omitempty"`    // process check: all messages of the unit, compiled in order
+	Index    int                 `json:"index,omitempty"`   // process check: which of them is compared
 }
 
 // placeholders whose base names collide in every way the naming algorithm distinguishes:
@@ -49,6 +51,8 @@ type c10Case struct {
 var c10Exprs = []string{
 	"$x", "$a.x", "$b.x", "$x_1", "$a.x_1", "$x_2", "$b.x_2", "$xx", "$a.y", "$b.y", "$y", "$a.x + 1", "$y * 2", "$a.x_1.z", "$b.x.x",
 	"$xs[0]", "$a['x']", "length($xs)", "G_X", "app.G_X", "['x': $x]['x']", "['k': 1, 'j': $y, 'x': 2]['k']",
+	// identifiers that differ only in case or in word boundaries
+	"$userName", "$username", "$a.userName", "$b.username", "$user_name", "$a.USERNAME", "$xY", "$xy", "$x2y", "$a.x2Y",
 }
 
 var c10Tags = []string{"<b>", "</b>", "<br/>", "<a href=\"u\">", "<a class=\"k\">", "</a>", "<i>", "<img src=\"s\"/>", "<a href=\"u\">", "<span>", "</span>", "<a_1>"}
@@ -64,7 +68,7 @@ func (m msgSpec) vars() []string {
 				for i := 0; i < len(s); i++ {
 					if s[i] == '$' {
 						j := i + 1
-						for j < len(s) && (s[j] == '_' || s[j] >= 'a' && s[j] <= 'z' || s[j] >= '0' && s[j] <= '9') {
+						for j < len(s) && (s[j] == '_' || s[j] >= 'a' && s[j] <= 'z' || s[j] >= 'A' && s[j] <= 'Z' || s[j] >= '0' && s[j] <= '9') {
 							j++
 						}
 						set[s[i+1:j]] = true
@@ -339,6 +343,41 @@ func C10(c *wk.Ctx) {
 		var cs c10Case
 		readReplay(c, &cs)
 		u := wk.NewUnit(0)
+		if cs.Check == "native" {
+			// statistical replay: many native compilations of the message in this process
+			first := ""
+			for k := 0; k < 400; k++ {
+				v, _ := observeMsgCase(bundleFor("app.m", "t", "m.soy", []msgSpec{cs.Msg}), nil)
+				u.Evals++
+				d := vecDigest(v)
+				if k == 0 {
+					first = d
+				} else if d != first {
+					b, _ := json.Marshal(&cs)
+					u.AddFail(&wk.Failure{Class: "native-disagreement", Site: "message id or placeholder names",
+						Detail: "two compilations of the same message in one process (native map iteration order) disagree: " + cs.Msg.source(), Replay: b})
+					break
+				}
+			}
+			c.Emit(u)
+			return
+		}
+		if cs.Check == "process" {
+			if cs.Index < 0 || cs.Index >= len(cs.Unit) {
+				u.AddFail(&wk.Failure{Class: "invalid-case", Detail: "index"})
+				c.Emit(u)
+				return
+			}
+			mine := c10Forward(cs.Unit)
+			other, err := c.Child("oracle-replay", 0, "rev")
+			if err != nil {
+				c.Fatal("%v", err)
+			}
+			u.Evals = int64(2 * len(cs.Unit))
+			u.AddFail(c10ProcessDiff(&cs, mine, other))
+			c.Emit(u)
+			return
+		}
 		var plan *simrt.MapPlan
 		if cs.Check == "maporder" {
 			plan = simrt.ExplicitPlan(cs.MapOrder)
@@ -353,6 +392,16 @@ func C10(c *wk.Ctx) {
 		c.Emit(u)
 		return
 	}
+	if c.Mode == "oracle-replay" {
+		var cs c10Case
+		readReplay(c, &cs)
+		u := wk.NewUnit(0)
+		for k, v := range c10Reverse(cs.Unit) {
+			u.Observe(k, v)
+		}
+		c.Emit(u)
+		return
+	}
 	units, perUnit := 500, 12
 	if c.Tier == "thorough" {
 		units = 20000
@@ -362,9 +411,41 @@ func C10(c *wk.Ctx) {
 		c.Emit(map[string]interface{}{"ev": "plan", "units": units, "messages_per_unit": perUnit})
 		return
 	}
+	unitMsgs := func(run int) []msgSpec {
+		var out []msgSpec
+		for mi := 0; mi < perUnit; mi++ {
+			out = append(out, genMsg(simrt.NewRNG(c.UnitSeed(run, uint64(1000+mi)))))
+		}
+		return out
+	}
+	if c.Mode == "oracle" {
+		// a fresh process that compiles the unit's messages in reverse order
+		u := wk.NewUnit(c.Start)
+		for k, v := range c10Reverse(unitMsgs(c.Start)) {
+			u.Observe(k, v)
+		}
+		c.Emit(u)
+		return
+	}
 	for run := c.Start; run < c.Start+c.Count && run < units; run++ {
 		c.Begin(run)
 		u := wk.NewUnit(run)
+		if !native {
+			// (c') processes with different histories: this process compiles the unit's messages first to
+			// last (and much else in between), a fresh child process compiles them last to first
+			msgs := unitMsgs(run)
+			mine := c10Forward(msgs)
+			other, err := c.Child("oracle", run, "rev")
+			if err != nil {
+				u.Trouble = err.Error()
+			} else {
+				for mi := range msgs {
+					u.Evals++
+					u.Counters["check_process"]++
+					u.AddFail(c10ProcessDiff(&c10Case{Check: "process", Unit: msgs, Index: mi, Msg: msgs[mi]}, mine, other))
+				}
+			}
+		}
 		for mi := 0; mi < perUnit; mi++ {
 			// one PRNG per message, so that the native and the instrumented worker draw the same one
 			r := simrt.NewRNG(c.UnitSeed(run, uint64(1000+mi)))
@@ -452,4 +533,43 @@ func C10(c *wk.Ctx) {
 		}
 		c.Emit(u)
 	}
+}
+
+func c10ObsString(v vector) string {
+	if !v.Accept || len(v.Msgs) != 1 {
+		return "rejected: " + v.Err
+	}
+	m := v.Msgs[0]
+	return fmt.Sprintf("id=%d names=%v ph=%q", m.ID, m.Names, m.PH)
+}
+
+// c10Forward observes every message of a unit, first to last, in this process.
+func c10Forward(msgs []msgSpec) map[string]string {
+	out := map[string]string{}
+	for i, m := range msgs {
+		v, _ := observeMsgCase(bundleFor("app.m", "t", "m.soy", []msgSpec{m}), simrt.CanonicalPlan())
+		out[fmt.Sprintf("m%d", i)] = c10ObsString(v)
+	}
+	return out
+}
+
+// c10Reverse observes them last to first.
+func c10Reverse(msgs []msgSpec) map[string]string {
+	out := map[string]string{}
+	for i := len(msgs) - 1; i >= 0; i-- {
+		v, _ := observeMsgCase(bundleFor("app.m", "t", "m.soy", []msgSpec{msgs[i]}), simrt.CanonicalPlan())
+		out[fmt.Sprintf("m%d", i)] = c10ObsString(v)
+	}
+	return out
+}
+
+func c10ProcessDiff(cs *c10Case, mine, other map[string]string) *wk.Failure {
+	k := fmt.Sprintf("m%d", cs.Index)
+	if mine[k] == other[k] {
+		return nil
+	}
+	b, _ := json.Marshal(cs)
+	return &wk.Failure{Class: "unequal", Site: "process: id or placeholder names depend on what the process compiled before",
+		Detail: fmt.Sprintf("message %d of the unit, compiled after the messages before it in this process: %s\nthe same message in a fresh process that compiled the unit's messages in reverse order: %s\nmessage: %s",
+			cs.Index, mine[k], other[k], cs.Unit[cs.Index].source()), Replay: b}
 }
